@@ -44,6 +44,13 @@ pub fn role_name(r: u8) -> &'static str {
 
 pub const HEADER_LEN: usize = 8;
 pub const IDLE_TIMEOUT_NS: u64 = 30_000_000_000;
+/// hang detector (a): slack on top of the idle timeout
+pub const PARKED_SLACK_NS: u64 = 15_000_000_000;
+/// hang detector (b): no application progress for this long while traffic continues (5 x idle timeout)
+pub const LIVELOCK_NS: u64 = 150_000_000_000;
+/// hang detector (c): the same after 45 s when the traffic since the last progress is massive
+pub const BUSY_LIVELOCK_NS: u64 = 45_000_000_000;
+pub const BUSY_LIVELOCK_DATAGRAMS: u64 = 300_000;
 
 #[derive(Clone, Debug, Default, Serialize)]
 pub struct Actor {
@@ -61,6 +68,8 @@ pub struct Actor {
     /// offset of the first byte that differs from the payload oracle
     pub mismatch: Option<u64>,
     pub bytes_after_fault: u64,
+    /// inside an awaited stream operation (as opposed to a planned pause)
+    pub in_op: bool,
 }
 
 #[derive(Default, Clone)]
@@ -73,6 +82,10 @@ pub struct AppLog {
     pub accepted: u64,
     /// the run was stopped by the harness' datagram budget
     pub over_budget: bool,
+    /// accepted streams still reading their 8-byte header: handler id -> start of the pending read
+    pub handler_reads: BTreeMap<u64, u64>,
+    /// why the hang detector fired
+    pub hang_reason: String,
 }
 
 #[derive(Clone, Debug, Default, Serialize)]
@@ -96,7 +109,6 @@ pub struct RunOut {
     pub app: AppLog,
     pub log: Vec<link::Rec>,
     pub stats: link::LinkStats,
-    pub first_fault_ns: Option<u64>,
     pub vanish_t_ns: Option<u64>,
     pub last_rx_ns: BTreeMap<String, u64>,
     pub client_ips: Vec<Option<std::net::IpAddr>>,
@@ -161,6 +173,16 @@ impl Ctx {
         e.ops += 1;
         e.last_op = name.to_string();
         e.last_op_start_ns = t;
+        e.in_op = true;
+    }
+    fn handler_read(&self, id: u64, pending: bool) {
+        let mut a = self.app.lock().unwrap();
+        if pending {
+            let t = now_ns();
+            a.handler_reads.insert(id, t);
+        } else {
+            a.handler_reads.remove(&id);
+        }
     }
     fn progress(&self, k: (u8, u8, u8), n: u64) {
         let after_fault = self.link.lock().unwrap().fault_seen();
@@ -169,6 +191,7 @@ impl Ctx {
         a.last_progress_ns = t;
         let e = a.actors.entry(k).or_default();
         e.bytes += n;
+        e.in_op = false;
         if after_fault {
             e.bytes_after_fault += n;
         }
@@ -185,6 +208,7 @@ impl Ctx {
         let t = now_ns();
         a.last_change_ns = t;
         let e = a.actors.entry(k).or_default();
+        e.in_op = false;
         if !e.done {
             e.done = true;
             e.end = end;
@@ -322,8 +346,12 @@ async fn server_handler(ctx: Ctx, stream: s2n_quic_dc::stream::testing::Stream) 
     // identify the stream from its 8-byte header
     let mut hdr = [0u8; HEADER_LEN];
     let mut have = 0usize;
+    let hid = ctx.app.lock().unwrap().accepted;
     while have < HEADER_LEN {
-        match r.read(&mut hdr[have..]).await {
+        ctx.handler_read(hid, true);
+        let res = r.read(&mut hdr[have..]).await;
+        ctx.handler_read(hid, false);
+        match res {
             Ok(0) => {
                 ctx.ghost(format!("eof_before_header have={have}"));
                 ctx.finished();
@@ -597,11 +625,7 @@ pub fn execute(plan: &Plan) -> RunOut {
                 let result = result.clone();
                 async move {
                     let grace_ns = (2 * (ctx.plan.cfg.base_delay_us + ctx.plan.cfg.jitter_us) + 50_000) * 1000;
-                    // vanish plans contain application pauses of up to 40 s on top of the 30 s idle timeout;
-                    // all other families pause for at most 1 s and black out for at most 3 s
-                    let quiet_limit_ns: u64 = if ctx.plan.family == "vanish" { 150_000_000_000 } else { 50_000_000_000 };
-                    // debugging aid only (never set by the check): lets a human see how long a parked task stays parked
-                    let quiet_limit_ns = std::env::var("VERIF_QUIET_S").ok().and_then(|s| s.parse::<u64>().ok()).map_or(quiet_limit_ns, |s| s * 1_000_000_000);
+                    let quiet_limit_ns: u64 = LIVELOCK_NS;
                     let mut cap_ns = ctx.plan.cfg.cap_s * 1_000_000_000;
                     let hard_ns = cap_ns * 12;
                     let mut extended = 0u32;
@@ -609,6 +633,8 @@ pub fn execute(plan: &Plan) -> RunOut {
                     let mut capped = false;
                     let mut over_budget = false;
                     let debug = std::env::var("VERIF_DEBUG").is_ok();
+                    let mut hang_reason = String::new();
+                    let mut mark = (0u64, 0u64); // (last progress/change time, datagrams at that time)
                     loop {
                         bach::time::sleep(Duration::from_micros(step_us)).await;
                         step_us = (step_us * 2).min(1_000_000);
@@ -624,19 +650,49 @@ pub fn execute(plan: &Plan) -> RunOut {
                         // start/finish for 50 s (150 s in the vanish family) of virtual time, i.e.
                         // well beyond the 30 s stream idle timeout, or the absolute cap
                         let quiet = t.saturating_sub(last_progress.max(last_change));
-                        if debug {
+                        let (over, last_delivery, datagrams) = {
                             let l = ctx.link.lock().unwrap();
-                            eprintln!("supervisor: t={} ms pending={} quiet={} ms datagrams={} bytes={}", t / 1_000_000, pending, quiet / 1_000_000, l.datagrams, l.bytes_moved);
+                            if debug {
+                                eprintln!("supervisor: t={} ms pending={} quiet={} ms datagrams={} bytes={}", t / 1_000_000, pending, quiet / 1_000_000, l.datagrams, l.bytes_moved);
+                            }
+                            (l.over_budget, l.last_deliver_ns, l.datagrams)
+                        };
+                        if last_progress.max(last_change) != mark.0 {
+                            mark = (last_progress.max(last_change), datagrams);
                         }
-                        if ctx.link.lock().unwrap().over_budget {
-                            // resource bound of the harness; the oracle decides from `quiet_ns`
-                            // whether this is a hang (no progress for longer than the idle timeout)
+                        // operations currently awaited (planned pauses are not operations)
+                        let op_starts: Vec<u64> = {
+                            let a = ctx.app.lock().unwrap();
+                            a.actors.values().filter(|x| x.in_op && !x.done).map(|x| x.last_op_start_ns).chain(a.handler_reads.values().copied()).collect()
+                        };
+                        // (a) parked: an operation has been pending and the network silent for longer
+                        //     than the stream idle timeout plus 15 s
+                        let parked = op_starts.iter().any(|s| t.saturating_sub((*s).max(last_delivery)) > IDLE_TIMEOUT_NS + PARKED_SLACK_NS);
+                        // (b) livelocked: datagrams keep flowing, yet no byte was read or written and no
+                        //     task finished for LIVELOCK_NS while an operation has been pending that long
+                        let livelocked = quiet > quiet_limit_ns && op_starts.iter().any(|s| t.saturating_sub(*s) > quiet_limit_ns);
+                        // (c) busy livelock: the same for BUSY_LIVELOCK_NS (1.5 x idle timeout) while at least
+                        //     BUSY_LIVELOCK_DATAGRAMS datagrams were exchanged since the last progress
+                        let busy = quiet > BUSY_LIVELOCK_NS
+                            && datagrams.saturating_sub(mark.1) > BUSY_LIVELOCK_DATAGRAMS
+                            && op_starts.iter().any(|s| t.saturating_sub(*s) > BUSY_LIVELOCK_NS);
+                        let livelocked = livelocked || busy;
+                        if over {
                             over_budget = true;
-                            capped = pending > 0 && quiet > IDLE_TIMEOUT_NS + 5_000_000_000;
+                            capped = parked || livelocked;
                             break;
                         }
-                        if pending > 0 && quiet > quiet_limit_ns {
+                        if parked || livelocked {
                             capped = true;
+                            hang_reason = if parked {
+                                format!("an operation has been pending and no datagram was delivered for more than {} s (idle timeout 30 s)", (IDLE_TIMEOUT_NS + PARKED_SLACK_NS) / 1_000_000_000)
+                            } else {
+                                format!(
+                                    "datagrams still flow ({} since the last progress) but no byte was read or written and no task finished for {} s of virtual time",
+                                    datagrams.saturating_sub(mark.1),
+                                    quiet / 1_000_000_000
+                                )
+                            };
                             break;
                         }
                         if t >= cap_ns {
@@ -678,6 +734,7 @@ pub fn execute(plan: &Plan) -> RunOut {
                     end.server_handshake_requests = s.server_hs_requests.load(Ordering::Relaxed);
                     let mut app_snapshot = ctx.app.lock().unwrap().clone();
                     app_snapshot.over_budget = over_budget;
+                    app_snapshot.hang_reason = hang_reason;
                     *result.lock().unwrap() = (end, now_ns(), capped, extended, counters, trace::take(), app_snapshot);
                 }
                 .primary()
@@ -718,7 +775,6 @@ pub fn execute(plan: &Plan) -> RunOut {
         app,
         log: std::mem::take(&mut l.log),
         stats: std::mem::take(&mut l.stats),
-        first_fault_ns: l.first_fault_ns,
         vanish_t_ns: l.vanish_t_ns,
         last_rx_ns: l.last_rx_ns.iter().map(|(k, v)| (k.to_string(), *v)).collect(),
         client_ips,
